@@ -798,4 +798,206 @@ example {W V : Type} [Inhabited V] (cb : QVal → PyVal) :
         predictUnder (env cb) S now m' ws inputs = predictUnder (env cb) S now modelEx ws inputs :=
   C13_model_rebuild_predict_any_mode_partial (env cb) modelEx (modelEx_ok cb) rfl
 
+/-! ## Strengthening round U13 (seeds C13-9 / C13-10)
+
+### base-class constructor arguments that travel through `**kwargs` -/
+
+/-- names of a base-argument table are pairwise different -/
+abbrev BaseKwNodup (bks : List BaseKw) : Prop := (bks.map (·.name)).Nodup
+
+theorem lookup_heldKw (bks : List BaseKw) (user : Cfg) (b : BaseKw) (hb : b ∈ bks)
+    (hn : BaseKwNodup bks) :
+    (heldKw bks user).lookup b.name = some ((user.lookup b.name).getD b.default) := by
+  induction bks with
+  | nil => cases hb
+  | cons a rest ih =>
+    simp only [BaseKwNodup, List.map_cons, List.nodup_cons] at hn
+    rcases List.mem_cons.mp hb with rfl | hr
+    · simp [heldKw, List.lookup]
+    · have hne : (b.name == a.name) = false := by
+        apply beq_false_of_ne
+        intro h
+        exact hn.1 (h ▸ List.mem_map_of_mem hr)
+      have := ih hr hn.2
+      simp only [heldKw, List.map_cons, List.lookup, hne] at this ⊢
+      exact this
+
+theorem lookup_kwGetConfig (bks : List BaseKw) (held : Cfg) (b : BaseKw) (hb : b ∈ bks)
+    (hn : BaseKwNodup bks) :
+    (kwGetConfig bks held).lookup b.name =
+      if b.emitted then some ((held.lookup b.name).getD b.default) else none := by
+  induction bks with
+  | nil => cases hb
+  | cons a rest ih =>
+    simp only [BaseKwNodup, List.map_cons, List.nodup_cons] at hn
+    rcases List.mem_cons.mp hb with rfl | hr
+    · by_cases he : b.emitted
+      · simp [kwGetConfig, List.filter, he, List.lookup]
+      · have hnot : ∀ c ∈ rest.filter (·.emitted), (b.name == c.name) = false := by
+          intro c hc
+          apply beq_false_of_ne
+          intro h
+          exact hn.1 (h ▸ List.mem_map_of_mem (List.mem_of_mem_filter hc))
+        have hnone : ∀ (l : List BaseKw), (∀ c ∈ l, (b.name == c.name) = false) →
+            (l.map fun c => (c.name, (held.lookup c.name).getD c.default)).lookup b.name = none := by
+          intro l hl
+          induction l with
+          | nil => rfl
+          | cons c l ihl =>
+            simp only [List.map_cons, List.lookup, hl c (List.mem_cons_self ..)]
+            exact ihl fun d hd => hl d (List.mem_cons_of_mem _ hd)
+        simp only [kwGetConfig, List.filter, he]
+        simpa [he] using hnone _ hnot
+    · have hne : (b.name == a.name) = false := by
+        apply beq_false_of_ne
+        intro h
+        exact hn.1 (h ▸ List.mem_map_of_mem hr)
+      have := ih hr hn.2
+      by_cases ha : a.emitted
+      · simp only [kwGetConfig, List.filter, ha, List.map_cons, List.lookup, hne] at this ⊢
+        exact this
+      · simp only [kwGetConfig, List.filter, ha] at this ⊢
+        exact this
+
+/-- **Field by field**, for ANY table of base-class arguments and ANY keywords of the caller: after
+    `get_config → cls(**config)` an argument the config carries holds the value the original holds, an
+    argument the config does not carry is back at the base class' default. -/
+theorem C13_base_kwarg_roundtrip (bks : List BaseKw) (hn : BaseKwNodup bks) (user : Cfg)
+    (b : BaseKw) (hb : b ∈ bks) :
+    (kwFromConfig bks (kwGetConfig bks (heldKw bks user))).lookup b.name =
+      some (if b.emitted then (user.lookup b.name).getD b.default else b.default) := by
+  rw [kwFromConfig, lookup_heldKw bks _ b hb hn, lookup_kwGetConfig bks _ b hb hn,
+    lookup_heldKw bks user b hb hn]
+  by_cases he : b.emitted <;> simp [he]
+
+/-- so: when the config carries every argument, the rebuilt layer holds exactly the attributes of the
+    original, whatever the caller passed -/
+theorem C13_base_kwargs_roundtrip (bks : List BaseKw) (hn : BaseKwNodup bks)
+    (he : ∀ b ∈ bks, b.emitted = true) (user : Cfg) :
+    kwFromConfig bks (kwGetConfig bks (heldKw bks user)) = heldKw bks user := by
+  have hfil : bks.filter (·.emitted) = bks := List.filter_eq_self.mpr he
+  simp only [kwFromConfig, heldKw, kwGetConfig, hfil]
+  apply List.map_congr_left
+  intro b hb
+  have h1 := lookup_heldKw bks user b hb hn
+  simp only [heldKw] at h1
+  have h2 : ((bks.map fun b => (b.name, ((bks.map fun b => (b.name, (user.lookup b.name).getD b.default)).lookup
+      b.name).getD b.default)).lookup b.name) = some ((user.lookup b.name).getD b.default) := by
+    have := lookup_heldKw bks (heldKw bks user) b hb hn
+    simp only [heldKw] at this
+    rw [this, h1]; rfl
+  rw [h2]; rfl
+
+/-- the (class, argument) pairs of the real tables that `get_config` does not write — complete list.
+    None of them is read at inference (dropout seed of the cells, the unused `kernel_*` of the depthwise
+    classes, training-time options of batch normalisation). -/
+def droppedBaseKwargs : List (String × String) :=
+  baseKwargs.flatMap fun (c, bks) => (bks.filter fun b => !b.emitted).map fun b => (c, b.name)
+
+theorem C13_base_kwargs_dropped_list :
+    droppedBaseKwargs =
+      [("QSimpleRNNCell", "seed"), ("QLSTMCell", "seed"), ("QGRUCell", "seed"),
+       ("QDepthwiseConv2D", "kernel_initializer"), ("QDepthwiseConv2D", "kernel_regularizer"),
+       ("QDepthwiseConv2D", "kernel_constraint"),
+       ("QBatchNormalization", "synchronized"), ("QBatchNormalization", "renorm_clipping"),
+       ("QBatchNormalization", "renorm_momentum"),
+       ("QDepthwiseConv2DBatchnorm", "kernel_initializer"), ("QDepthwiseConv2DBatchnorm", "kernel_regularizer"),
+       ("QDepthwiseConv2DBatchnorm", "kernel_constraint")] := by
+  decide
+
+theorem C13_base_kwargs_tables_nodup : ∀ e ∈ baseKwargs, BaseKwNodup e.2 := by
+  decide
+
+/-- EVERY base-class argument that the inference computation of a class reads (`groups`,
+    `data_format`, `time_major`, `keepdims`) is written by that class' `get_config` -/
+theorem C13_base_kwargs_read_emitted :
+    ∀ e ∈ baseKwargs, ∀ b ∈ e.2, b.read = true → b.emitted = true := by
+  decide
+
+/-- the clause for the real tables: for every layer class, every read base-class argument and every
+    value the caller passed for it (and whatever else the caller passed), the rebuilt layer holds the
+    original's value -/
+theorem C13_base_kwargs_read_survive (cls : String) (bks : List BaseKw) (hc : (cls, bks) ∈ baseKwargs)
+    (user : Cfg) (b : BaseKw) (hb : b ∈ bks) (hr : b.read = true) :
+    (kwFromConfig bks (kwGetConfig bks (heldKw bks user))).lookup b.name =
+      (heldKw bks user).lookup b.name := by
+  have hn := C13_base_kwargs_tables_nodup _ hc
+  have he := C13_base_kwargs_read_emitted _ hc b hb hr
+  rw [C13_base_kwarg_roundtrip bks hn user b hb, lookup_heldKw bks user b hb hn]
+  simp [he]
+
+/-- `QGlobalAveragePooling2D(keepdims=True)`: the rebuilt layer keeps the spatial axes too; and what a
+    `get_config` that leaves the key out would do (back to the default `False`: output (N, C) instead
+    of (N, 1, 1, C)) -/
+theorem C13_keepdims_witness :
+    let bks : List BaseKw := (baseKwargs.lookup "QGlobalAveragePooling2D").getD []
+    let dropped : List BaseKw := bks.map fun b => { b with emitted := false }
+    (kwFromConfig bks (kwGetConfig bks (heldKw bks [("keepdims", .bool true)]))).lookup "keepdims"
+        = some (.bool true) ∧
+      (kwFromConfig dropped (kwGetConfig dropped (heldKw dropped [("keepdims", .bool true)]))).lookup "keepdims"
+        = some (.bool false) := by
+  constructor <;> rfl
+
+/-! ### the caller's own custom objects -/
+
+/-- membership in a route's table: the library's keys or the caller's -/
+theorem C13_route_table_contains (E : Env) (r : Route) (user : List String) (c : String) :
+    (routeTable E r user).contains c = (E.customObjects.contains c || user.contains c) := by
+  simp only [routeTable, List.contains_eq_mem, List.mem_append, List.mem_filter, Bool.decide_or,
+    Bool.decide_and, Bool.not_eq_true', decide_eq_false_iff_not, decide_not]
+  by_cases h1 : c ∈ E.customObjects <;> by_cases h2 : c ∈ user <;> simp [h1, h2]
+
+/-- **Reloading needs no user-supplied custom objects for library classes** — on every route and
+    whatever dict the caller passes (None, empty, his own classes only, some library classes, both):
+    every library class a config can name is a key of the table Keras sees -/
+theorem C13_route_table_complete (cb : QVal → PyVal) (r : Route) (user : List String) :
+    ∀ c ∈ libraryClassNames, (routeTable (env cb) r user).contains c = true := by
+  intro c hc
+  rw [C13_route_table_contains]
+  have : (env cb).customObjects.contains c = true := C13_table_complete c hc
+  rw [this, Bool.true_or]
+
+/-- the caller's keys are in the table too -/
+theorem C13_route_table_user_kept (E : Env) (r : Route) (user : List String) :
+    ∀ c ∈ user, (routeTable E r user).contains c = true := by
+  intro c hc
+  rw [C13_route_table_contains]
+  simp [List.contains_eq_mem, hc]
+
+/-- a caller who lists nothing, or only library names (`{"QDense": QDense}`), gets exactly the
+    library's table: the route is the plain route -/
+theorem C13_route_table_library_only (E : Env) (r : Route) (user : List String)
+    (h : ∀ k ∈ user, E.customObjects.contains k = true) : routeTable E r user = E.customObjects := by
+  have : user.filter (fun k => !E.customObjects.contains k) = [] := by
+    apply List.filter_eq_nil_iff.mpr
+    intro k hk
+    simpa using h k hk
+  rw [routeTable, this, List.nil_append]
+
+theorem C13_rebuild_with_library_only (E : Env) (r : Route) (user : List String)
+    (h : ∀ k ∈ user, E.customObjects.contains k = true) (m : Model) :
+    rebuildWith E r user m = rebuild E m := by
+  simp only [rebuildWith, rebuild, Env.withUser, C13_route_table_library_only E r user h]
+
+/-- so the model-level theorem holds on every route for such a caller (None and `{}` included) -/
+theorem C13_model_rebuild_with_predict_partial {W V : Type} [Inhabited V] (E : Env) (m : Model)
+    (hm : ∀ n ∈ m, NodeOK E n.node) (hr : modelGetConfigRaises E m = false)
+    (r : Route) (user : List String) (h : ∀ k ∈ user, E.customObjects.contains k = true) :
+    ∃ m', rebuildWith E r user m = .ok m' ∧
+      ∀ (S : Sem W V) (ws : Nat → W) (inputs : List V),
+        predict E S m' ws inputs = predict E S m ws inputs := by
+  rw [C13_rebuild_with_library_only E r user h]
+  exact C13_model_rebuild_predict_partial E m hm hr
+
+/-- a caller who names a class of his own (`{"SoftClip": SoftClip}`): on every route the example model
+    of library layers is rebuilt exactly as without the argument; and what a route that used the
+    caller's dict INSTEAD of the library's table would do: `unknownObject` for the first library layer -/
+theorem C13_user_class_witness (cb : QVal → PyVal) :
+    (∀ r : Route, rebuildWith (env cb) r ["SoftClip"] modelEx = rebuild (env cb) modelEx) ∧
+      modelFromConfig { env cb with customObjects := ["SoftClip"] } (modelGetConfig (env cb) modelEx)
+        = .error .unknownObject := by
+  refine ⟨fun r => ?_, ?_⟩
+  · cases r <;> rfl
+  · rfl
+
 end QKV.Props.C13
